@@ -33,8 +33,10 @@ pub fn parse_header_value(input: &str) -> Vec<(&str, f32)> {
             let mut value = 1.0_f32;
 
             for p in params {
-                if p.trim_start().starts_with("q=") {
-                    if let Ok(val) = f32::from_str(p.trim_start()[2..].trim()) {
+                let p = p.trim_start();
+                // the parameter name is case-insensitive (`Q=0.5` is a weight too)
+                if p.get(..2).map_or(false, |name| name.eq_ignore_ascii_case("q=")) {
+                    if let Ok(val) = f32::from_str(p[2..].trim()) {
                         value = val;
                         break;
                     }
